@@ -14,7 +14,7 @@ def main(rep):
     wk.standard_main(rep, crash=True, known=known, crash_monitors=["recovery", "post_restart_ok", "store_immutable", "queue_form", "fault_reported", "position_not_ahead"],
                      rule=("every system-call boundary (crash before call k, for every k of the implementation's own call log, and after the last) of the "
                            "operation under test in each scenario family: accepting a write (plain / project), timeout pass over one, duplicated, colliding, "
-                           "history (first / with offset), project (first / second snapshot), deleted, unreadable, directory sources, configuration reload to a "
+                           "history (first / with offset / first name taken / formerly history, now ordinary), project (first / second snapshot), deleted, unreadable, directory sources, configuration reload to a "
                            "new queue and journal, a write accepted after a reload that moved the empty queue, loading an existing queue, editor exec; the implementation really dies (_exit) and a new process restarts "
                            "and drains; crashed and recovered disks compared with the model under the same crash index; every case is non-trivial"))
 
